@@ -9,7 +9,7 @@ from .sym import explore
 
 
 def run_case(fn, replay=None, signature=None, sample=None, timeout_ms=5000, max_paths=5000, key=None,
-             stop_on_fail=True, budget_s=None, reject=(Exception,)):
+             stop_on_fail=True, budget_s=None, reject=(Exception,), witness=False):
     """Explore fn on all paths.  On a failed obligation call replay(failed_dict)->(bool, detail) on the real
     code with plain values.  Exceptions of the real code (type in `reject`) on *every* path => rejected input."""
     rej = []
@@ -23,7 +23,8 @@ def run_case(fn, replay=None, signature=None, sample=None, timeout_ms=5000, max_
                 rej.append(traceback.format_exc()[-600:])
             raise sym.PathAbort("infeasible: rejected")
 
-    st = explore(wrapped, timeout_ms=timeout_ms, max_paths=max_paths, stop_on_fail=stop_on_fail, budget_s=budget_s)
+    st = explore(wrapped, timeout_ms=timeout_ms, max_paths=max_paths, stop_on_fail=stop_on_fail, budget_s=budget_s,
+                 witness=witness)
     out = dict(stats=st.as_dict(), violations=[], nontrivial=st.obligations > 0)
     if key is not None:
         out["key"] = key
